@@ -330,7 +330,7 @@ def cluster_runs(run, ncases, length, kills, faults=True):
     return cases, outs, dist
 
 def check_cluster_property(run, props_file, cone, oracles, kills=False, quick=(150, 40), thorough=(1500, 70), node_level=True,
-                           classify=None, histories=False, refine=False):
+                           classify=None, histories=False, refine=False, extra=None):
     """Shared flow: proofs, node-level correspondence of the election model, cluster schedules on the real nodes,
     the property oracles on the real executions. refine=True: every execution is also replayed in Coq as an
     execution of DE.AbstractRaft (dvlib.refine.validate_refinement); evidence keys traces_refined_in_coq,
@@ -354,6 +354,8 @@ def check_cluster_property(run, props_file, cone, oracles, kills=False, quick=(1
         core.harness_build()
         if node_level:
             election_correspondence(run, 400 if thorough_t else 120, broken)
+        if extra:
+            extra(run, broken, violations, thorough_t)
         ncases, length = thorough if thorough_t else quick
         cases, outs, dist = cluster_runs(run, ncases, length, kills)
         ok = 0
@@ -366,7 +368,16 @@ def check_cluster_property(run, props_file, cone, oracles, kills=False, quick=(1
                 if v:
                     cls, why = v
                     if classify: cls = classify(cls, c, o, why)
-                    violations.append({'class': cls, 'probe': 'cluster', 'input': c, 'output': None, 'why': why})
+                    # every BufferedRaftLog runs its IO task on an OS thread of its own, so one schedule can come out
+                    # differently on another run: a counterexample is only reported if it replays (3 more runs)
+                    again = [o2 for o2 in core.probe_parallel('cluster', [c] * 3, jobs=3, timeout=600) if not isinstance(o2, str)]
+                    hits = [f(c, o2) for o2 in again]
+                    if any(hits):
+                        h = [x for x in hits if x][0]
+                        violations.append({'class': classify(h[0], c, o, h[1]) if classify else h[0], 'probe': 'cluster', 'input': c, 'output': None, 'why': h[1]})
+                    else:
+                        run.cov.setdefault('unreproduced_observations', []).append({'class': cls, 'why': why, 'input': c})
+                        print('UNREPRODUCED-OBSERVATION property=%s %s: %s (seen once, not in 3 re-runs of the same schedule; not a verdict)' % (run.prop, cls, why))
         if histories:
             for cs, h in validate_histories(run, cases, outs, broken)[:2]:
                 violations.append({'class': 'history-fails-vote-once-or-majority-backing', 'probe': 'cluster', 'input': cs, 'output': h,
